@@ -1,0 +1,17 @@
+//go:build verif
+
+// Contracts for the deductive checks in /verif (comment-only; not part of normal builds).
+
+package managers
+
+//@ immutable Managers.Mongo, Managers.Notifier, Managers.Redis
+
+// GetLock hands out the lock object for a name (redis lock, or the process-local lock cached in a
+// sync.Map). Trusted: in the sequential view of one request it is a lock this request does not
+// hold yet. (That the cached local lock keeps the context of its FIRST caller is outside this
+// contract; see DESIGN.md, C12.)
+//@ func (*Managers).GetLock
+//@   trusted redis / sync.Map plumbing
+//@   mode math
+//@   ensures result != nil && !sel(G.held, result)
+//@   modifies nothing
